@@ -175,3 +175,17 @@ pub enum EdgeShapes {
     #[regex("[a-z]*!")] Macro,
     #[regex("[a-z]+")] Word,
 }
+
+// a multi-byte literal token (priority 2 x bytes = 10) against a pattern of priority 7 on the same text
+#[derive(Logos, Debug, PartialEq, Clone)]
+pub enum MbTokenPrio {
+    #[token("\u{e9}t\u{e9}")] Summer,
+    #[regex("[a-z\u{e0}-\u{ff}]+", priority = 7)] Word,
+    #[token(" ")] Sp,
+}
+#[derive(Logos, Debug, PartialEq, Clone)]
+pub enum MbTokenPrioI {
+    #[token("n\u{e3}o", ignore(case))] Not,
+    #[regex("\\p{L}+", priority = 7)] Word,
+    #[token(" ")] Sp,
+}
